@@ -682,6 +682,16 @@ impl Session {
 
         debug!("\n>>RCV (BTP IO) {} [{}]\n      HANDSHAKE RESP {:?}\nSelected version: {}, MTU: {}, window size: {}", address, hdr, resp, resp.version, resp.mtu, resp.window_size);
 
+        // The selected segment size must be within what the specification allows and the
+        // window must let at least one segment through; we would not be able to send otherwise
+        if resp.mtu < MIN_MTU - GATT_HEADER_SIZE as u16
+            || resp.mtu > MAX_MTU - GATT_HEADER_SIZE as u16
+            || resp.window_size == 0
+        {
+            warn!("RX handshake integrity failure: unusable MTU or window size: {:?}", resp);
+            Err(ErrorCode::InvalidData)?;
+        }
+
         self.setup(address, resp.version, resp.mtu, resp.window_size);
 
         Ok(())
